@@ -32,19 +32,21 @@ AllIds(L) == <<L.id>> \o L.forms \o L.frames
 CountIn(s, x) == Cardinality({k \in DOMAIN s : s[k] = x})
 
 E101(L) == {x \in Rng(AllIds(L)) : CountIn(AllIds(L), x) > 1}
-W201(L) == {e[1] : e \in {e \in Rng(L.entries) : ~\E s \in Rng(L.senses) : s[2] = e[1]}}
+\* a sense row carries the position of its entry (s[4]): entries are told apart by position,
+\* not by id, since ids may be repeated or empty in the documents validate() is meant for
+W201(L) == {L.entries[k][1] : k \in {k \in DOMAIN L.entries : ~\E s \in Rng(L.senses) : s[4] = k}}
 \* senses of an entry that has several senses in the same synset
 W202(L) == {s[1] : s \in {s \in Rng(L.senses) :
-              Cardinality({k \in DOMAIN L.senses : L.senses[k][2] = s[2] /\ L.senses[k][3] = s[3]}) > 1}}
-LemmaOf(L, e) == (CHOOSE x \in Rng(L.entries) : x[1] = e)[2]
+              Cardinality({k \in DOMAIN L.senses : L.senses[k][4] = s[4] /\ L.senses[k][3] = s[3]}) > 1}}
+LemmaOf(L, s) == L.entries[s[4]][2]
 \* lemma forms for which several entries share a synset (lower bound) / for
 \* which the pair (lemma, synset) occurs several times at all (upper bound)
-W203lo(L) == {LemmaOf(L, s[2]) : s \in {s \in Rng(L.senses) :
-                \E t \in Rng(L.senses) : t[2] # s[2] /\ t[3] = s[3]
-                                         /\ LemmaOf(L, t[2]) = LemmaOf(L, s[2])}}
-W203hi(L) == {LemmaOf(L, s[2]) : s \in {s \in Rng(L.senses) :
+W203lo(L) == {LemmaOf(L, s) : s \in {s \in Rng(L.senses) :
+                \E t \in Rng(L.senses) : t[4] # s[4] /\ t[3] = s[3]
+                                         /\ LemmaOf(L, t) = LemmaOf(L, s)}}
+W203hi(L) == {LemmaOf(L, s) : s \in {s \in Rng(L.senses) :
                 Cardinality({k \in DOMAIN L.senses :
-                   L.senses[k][3] = s[3] /\ LemmaOf(L, L.senses[k][2]) = LemmaOf(L, s[2])}) > 1}}
+                   L.senses[k][3] = s[3] /\ LemmaOf(L, L.senses[k]) = LemmaOf(L, s)}) > 1}}
 E204(L) == {s[1] : s \in {s \in Rng(L.senses) : s[3] \notin SynsetIds(L)}}
 W301(L) == {ss[1] : ss \in {ss \in Rng(L.synsets) : ~\E s \in Rng(L.senses) : s[3] = ss[1]}}
 RealIli(ss) == ss[2] # "" /\ ss[2] # "in"
